@@ -54,6 +54,9 @@ def wellFormed (o : Obs) : Option String :=
 
 def errKindName : Nat → String
   | 1 => "pointer" | 2 => "wrapped" | 3 => "value-typed" | 4 => "typed-nil" | 5 => "not-found" | _ => "?"
+def optKindName : String → String
+  | "0" => "0(none)" | "1" => "1(one)" | "2" => "2(all)" | "3" => "3(zero-valued)" | "4" => "4(negative)"
+  | "5" => "5(empty/reordered/repeated)" | o => o
 def ctxKindName : Nat → String
   | 0 => "background" | 1 => "far-deadline" | 2 => "cancelled" | _ => "?"
 def exitKindName : Nat → String
@@ -132,6 +135,7 @@ def runSection (r : Report) (s : Section) : Report := Id.run do
   if via ≠ "" then
     -- a user of SingleFlight driven through its own API (same monitor / model as ResourceManager.GetResource)
     r := r.addCover s!"{via}-sections"
+    r := r.addCover s!"{via}-constructor-options-{optKindName (kvStr s.cfg "opt" "0")}"
     for o in h do
       r := r.addCover s!"{via}-calls"
       if o.ran && !o.serr then r := r.addCover s!"{via}-loaded"
